@@ -39,7 +39,9 @@ func init() {
 	register("C12", &checkDef{level: "exploration", fn: runC12,
 		batches:  func(th bool) int { return map[bool]int{false: 2, true: 8}[th] },
 		parallel: func(th bool) int { return 2 },
-		timeout:  func(th bool) time.Duration { return map[bool]time.Duration{false: 15 * time.Minute, true: 60 * time.Minute}[th] },
+		timeout: func(th bool) time.Duration {
+			return map[bool]time.Duration{false: 15 * time.Minute, true: 60 * time.Minute}[th]
+		},
 	})
 }
 
